@@ -318,6 +318,151 @@ def dict_store_keys(func: ast.FunctionDef, target_text: str) -> set:
                 out.add(n.args[0].value)
     return out
 
+def inline_private_helpers(f: "FuncInfo", depth: int = 3) -> ast.FunctionDef:
+    """A copy of ``f``'s definition in which calls to private module-level helper functions of the same
+    module (``_name(...)`` used as a statement or as the whole right-hand side of an assignment) are
+    replaced by the helper's body: parameters are bound to the argument expressions, the helper's own
+    locals get a unique prefix, and a final ``return e`` becomes the assignment to the call's targets.
+    Only straight-line-at-exit helpers qualify (no return except as the last statement, no nested
+    definitions); anything else is left as a call.  Used so that code whose shared parts were
+    extracted into helpers is analysed like the code it replaced."""
+    import copy as _copy
+
+    counter = [0]
+    funcs = f.module.functions
+
+    def eligible(g):
+        if g is None or not g.name.startswith("_") or g is f:
+            return False
+        body = g.body_without_docstring()
+        if not body:
+            return False
+        for i, st in enumerate(body):
+            for n in ast.walk(st):
+                if isinstance(n, (ast.FunctionDef, ast.AsyncFunctionDef, ast.Lambda, ast.Yield, ast.YieldFrom)):
+                    return False
+                if isinstance(n, ast.Return) and not (n is st and i == len(body) - 1):
+                    return False
+        a = g.node.args
+        return not (a.vararg or a.kwarg)
+
+    def expand(g, call, targets, level):
+        counter[0] += 1
+        pre = f"_h{counter[0]}_"
+        a = g.node.args
+        params = [x.arg for x in a.posonlyargs + a.args + a.kwonlyargs]
+        defaults = {}
+        pos = a.posonlyargs + a.args
+        for prm, d in zip(pos[len(pos) - len(a.defaults):], a.defaults):
+            defaults[prm.arg] = d
+        for prm, d in zip(a.kwonlyargs, a.kw_defaults):
+            if d is not None:
+                defaults[prm.arg] = d
+        binds = {}
+        for prm, arg in zip(params, call.args):
+            binds[prm] = arg
+        for kw in call.keywords:
+            if kw.arg is None:
+                return None
+            binds[kw.arg] = kw.value
+        for prm in params:
+            if prm not in binds:
+                if prm not in defaults:
+                    return None
+                binds[prm] = defaults[prm]
+        body = _copy.deepcopy(g.body_without_docstring())
+        # names stored in the helper (its locals)
+        stored = set()
+        for st in body:
+            for n in ast.walk(st):
+                if isinstance(n, ast.Name) and isinstance(n.ctx, ast.Store):
+                    stored.add(n.id)
+        out = []
+        # a parameter that the helper re-binds, or a non-trivial argument used more than once, gets a temp
+        for prm in params:
+            arg = binds[prm]
+            uses = sum(1 for st in body for n in ast.walk(st) if isinstance(n, ast.Name) and n.id == prm and isinstance(n.ctx, ast.Load))
+            simple = isinstance(arg, (ast.Name, ast.Constant)) or (isinstance(arg, ast.Attribute) and isinstance(arg.value, ast.Name))
+            if prm in stored or (not simple and uses > 1):
+                tmp = pre + prm
+                out.append(ast.Assign(targets=[ast.Name(id=tmp, ctx=ast.Store())], value=_copy.deepcopy(arg)))
+                binds[prm] = ast.Name(id=tmp, ctx=ast.Load())
+                stored.discard(prm)
+
+        # helper locals that are simply handed back take the caller's names (no copy statement)
+        direct = {}
+        last = body[-1] if body else None
+        if isinstance(last, ast.Return) and last.value is not None and targets is not None and len(targets) == 1:
+            rv, tg = last.value, targets[0]
+            pairs = []
+            if isinstance(rv, ast.Name) and isinstance(tg, ast.Name):
+                pairs = [(rv, tg)]
+            elif isinstance(rv, ast.Tuple) and isinstance(tg, ast.Tuple) and len(rv.elts) == len(tg.elts):
+                pairs = list(zip(rv.elts, tg.elts))
+            if pairs and all(isinstance(x, ast.Name) and isinstance(y, ast.Name) and x.id in stored and x.id not in params for x, y in pairs) and len({x.id for x, _ in pairs}) == len(pairs):
+                direct = {x.id: y.id for x, y in pairs}
+                body = body[:-1]
+                targets = None
+
+        class Ren(ast.NodeTransformer):
+            def visit_Name(self, n):  # noqa: N802
+                if n.id in direct:
+                    return ast.Name(id=direct[n.id], ctx=n.ctx)
+                if n.id in binds and n.id in params:
+                    if isinstance(n.ctx, ast.Load):
+                        return _copy.deepcopy(binds[n.id])
+                    b = binds[n.id]
+                    return ast.Name(id=b.id, ctx=n.ctx) if isinstance(b, ast.Name) else n
+                if n.id in stored:
+                    return ast.Name(id=pre + n.id, ctx=n.ctx)
+                return n
+
+        body = [Ren().visit(st) for st in body]
+        if body and isinstance(body[-1], ast.Return):
+            ret = body.pop()
+            if targets is not None and ret.value is not None:
+                body.append(ast.Assign(targets=_copy.deepcopy(targets), value=ret.value))
+            elif targets is not None:
+                body.append(ast.Assign(targets=_copy.deepcopy(targets), value=ast.Constant(value=None)))
+        elif targets is not None:
+            body.append(ast.Assign(targets=_copy.deepcopy(targets), value=ast.Constant(value=None)))
+        out.extend(body)
+        for st in out:
+            ast.copy_location(st, call)
+            ast.fix_missing_locations(st)
+        return process(out, level + 1)
+
+    def helper_call(e):
+        if isinstance(e, ast.Call) and isinstance(e.func, ast.Name) and eligible(funcs.get(e.func.id)):
+            return funcs[e.func.id]
+        return None
+
+    def process(stmts, level):
+        out = []
+        for st in stmts:
+            rep = None
+            if level < depth:
+                if isinstance(st, ast.Expr) and helper_call(st.value):
+                    rep = expand(helper_call(st.value), st.value, None, level)
+                elif isinstance(st, ast.Assign) and helper_call(st.value):
+                    rep = expand(helper_call(st.value), st.value, st.targets, level)
+            if rep is not None:
+                out.extend(rep)
+                continue
+            # recurse into compound statements
+            for fld in ("body", "orelse", "finalbody"):
+                if hasattr(st, fld) and isinstance(getattr(st, fld), list) and getattr(st, fld) and isinstance(getattr(st, fld)[0], ast.stmt):
+                    setattr(st, fld, process(getattr(st, fld), level))
+            if isinstance(st, ast.Try):
+                for h in st.handlers:
+                    h.body = process(h.body, level)
+            out.append(st)
+        return out
+
+    node = _copy.deepcopy(f.node)
+    node.body = process(node.body, 0)
+    return ast.fix_missing_locations(node)
+
 def _decorator_name(d: ast.expr) -> str:
     if isinstance(d, ast.Call):
         d = d.func
